@@ -313,11 +313,15 @@ func (s *synGen) nullList() *Grammar {
 	g := &Grammar{}
 	top := &NTDef{Head: "U"}
 	body := []Sym{nt("H"), nt("L")}
-	switch s.r.Intn(4) {
+	switch s.r.Intn(6) {
 	case 0:
 		body = append(body, t[3])
 	case 1:
 		body = append(body, nt("T"))
+	case 2: // two more symbols behind the nullable list: the look-ahead string has four symbols
+		body = append(body, t[3], t[4])
+	case 3:
+		body = append(body, t[3], t[4], t[3])
 	}
 	top.Alts = append(top.Alts, alt(body...))
 	if s.r.Intn(3) == 0 {
@@ -406,7 +410,7 @@ func (s *synGen) optAfter() *Grammar {
 	s.pickTerminals(6)
 	t := s.terms
 	g := &Grammar{NTs: []*NTDef{
-		{Head: "S", Alts: []SAlt{alt(nt("Pair"), nt("Opt"), t[2]), alt(t[3], nt("Pair"), nt("Opt"))}},
+		{Head: "S", Alts: []SAlt{alt(nt("Pair"), nt("Opt"), t[2]), alt(t[3], nt("Pair"), nt("Opt")), alt(t[2], nt("Pair"), nt("Opt"), t[5], t[2], t[5])}},
 		{Head: "Pair", Alts: []SAlt{alt(t[0], t[1])}},
 		{Head: "Opt", Alts: []SAlt{alt(t[4]), emptyAlt()}},
 	}}
